@@ -183,6 +183,20 @@ fixed("F6p", ["C01", "C10", "C11"], "276c07b",
       ["missing_outcome", "missed_leak"],
       case("C11", "corpus", "t0: ArcClone(x=0,to=1); spawn(1); ArcCount(x=0); join(1) || t1: ArcDrop(x=0)", arc_owner=[0]))
 
+fixed("F3", ["C06"], "9ef0eca",
+      "a panic right after thread::spawn, while the new thread's closure (owning a loom::sync::Arc) was still queued, dropped that "
+      "closure outside the execution during unwinding and aborted the process",
+      ["process_abort", "unexpected_panic", "later_run_not_clean"],
+      case("C06", "corpus", "t0: ArcClone(x=0,to=1); spawn(1); PanicIf(v=-1) || t1: ArcCount(x=0)", arc_owner=[0], x={"mode": "user_panic"},
+           cfg={"max_permutations": 3000, "checkpoint_interval": 1}))
+fixed("F4", ["C05", "C06", "C20"], "097a7ec",
+      "reporting a deadlock left the execution without an active thread; destructors that ran while the deadlock panic unwound "
+      "(loom::sync::Arc handles owned by the deadlocked threads) then panicked again and aborted the process",
+      ["process_abort", "unexpected_panic", "later_run_not_clean", "missed_deadlock"],
+      case("C06", "corpus", "t0: ArcClone(x=0,to=1); spawn(1); Lock(m=0); Incr(m=0); Lock(m=1); Unlock(m=1); Unlock(m=0); join(1) || "
+           "t1: Lock(m=1); Incr(m=1); Lock(m=0); Unlock(m=0); Unlock(m=1); ArcCount(x=0)", arc_owner=[0], x={"mode": "own_failure_or_none"},
+           cfg={"max_permutations": 3000, "checkpoint_interval": 1}))
+
 if __name__ == "__main__":
     out = os.path.join(os.path.dirname(os.path.abspath(__file__)), "..", "known_findings.json")
     json.dump({"findings": F}, open(out, "w"), indent=1)
